@@ -43,7 +43,7 @@ def gen_doc(rnd, xml, budget=14):
             if k < .2:
                 rec.attrs.append((name, None, ns, ne, None, None)); continue
             emit('=')
-            if k < .5: v = '"' + rnd.choice(['v', 'a b', 'x>y', "it's", '', '</p>', '<b>', 'a/b']) + '"'
+            if k < .5: v = '"' + rnd.choice(['v', 'a b', 'x>y', "it's", '', '</p>', '<b>', 'a/b', 'btn btn-x\n\tis-on', 'a\r\n b  c']) + '"'
             elif k < .7: v = "'" + rnd.choice(['v', 'a b', 'x>y', 'say "hi"', '']) + "'"
             elif k < .85: v = rnd.choice(['v', 'a.b', '1', 'x:y', 'foo-bar'])
             else: v = '{' + rnd.choice(['e', 'a > b', '{x}', 'f("y")']) + '}'
@@ -103,6 +103,10 @@ def cases(tier, seed, prop):
         out += [{'s': s, 'g': 'exh'} for s in gens.all_strings(gens.HTML_ALPHA, L)]
         n = 3000 if tier == 'quick' else 40000
         out += [{'s': s, 'g': 'frag'} for s in gens.random_strings(rnd, FR, n, 1, 9)]
+        # several special (script / style) elements in one document: closed, unclosed up to the end, self-closed, with odd `type` values
+        SP = ['<style>', '</style>', '<script>', '</script>', '<style>a{}</style>', '<script>x</script>', 'b{}', '<p>', 'x</p>', '<script/>', '<script type=">', "<script type='>",
+              '<script type="', '<script src=a.js type=" >', '<style type=text/css>', '<script type=module>', '<script type=text/x-tpl>', '<i>', '</script >', '<STYLE>', '</Style>']
+        out += [{'s': s, 'g': 'special'} for s in gens.random_strings(rnd, SP, n // 5, 2, 6)]
         for _ in range(300 if tier == 'quick' else 4000):
             xml = rnd.random() < .3
             s, _t = gen_doc(rnd, xml, rnd.randint(1, 6))
